@@ -233,25 +233,8 @@ def threads_rules(ctx, rule="R15.3"):
             dumps[rel] = tuple(sorted((tuple(sorted(c)), v) for c, v in return_cases(fn)))
         except UnrollError as e:
             raise AnalysisError("set_num_threads of %s is no longer a decision table: %s" % (rel, e))
-        # structure: num_threads is None -> (OPENMP -> omp_get_num_procs) ; else -> num_threads
-        ok = False
-        body = [s for s in fn.body if not isinstance(s, ast.Pass)]
-        ifs = [s for s in body if isinstance(s, ast.If)]
-        if len(ifs) == 1 and ast.unparse(ifs[0].test) == "num_threads is None":
-            inner = [s for s in ifs[0].body if isinstance(s, ast.If)]
-            els = ifs[0].orelse
-            ok = (
-                len(inner) == 1
-                and ast.unparse(inner[0].test) == "OPENMP"
-                and any("omp_get_num_procs()" in ast.unparse(s) for s in inner[0].body)
-                and len(els) == 1
-                and isinstance(els[0], ast.Assign)
-                and ast.unparse(els[0].value) == "num_threads"
-            )
-            rets = [s for s in body if isinstance(s, ast.Return)]
-            ok = ok and len(rets) == 1 and isinstance(els[0].targets[0], ast.Name) and ast.unparse(rets[0].value) == els[0].targets[0].id
         # decision table of the function (independent of how the default is initialised or the branches are nested)
-        ok = ok and dumps[rel] == ((("OPENMP", "num_threads is None"), "openmp.omp_get_num_procs()"), (("not OPENMP", "num_threads is None"), "1"), (("num_threads is not None",), "num_threads"))
+        ok = dumps[rel] == ((("OPENMP", "num_threads is None"), "openmp.omp_get_num_procs()"), (("not OPENMP", "num_threads is None"), "1"), (("num_threads is not None",), "num_threads"))
         ctx.check(ok, rule, rel + "::set_num_threads",
                   "None -> omp_get_num_procs() only under compile-time OPENMP (else 1); explicit value forwarded unchanged", "shape")
         ctx.check("OPENMP" in mod.pyx.compile_time_names, rule, rel, "compile-time name OPENMP guards the openmp cimport", "openmp-guard")
